@@ -84,7 +84,7 @@ chk("C13", "conc", EX,
     "Held on 300 / 8 000 sequential histories and on every pause point of 29 (operation x closer) scenarios (x1 / x6 repetitions): op parked at each constructor callback while scope.Close / ancestor.Close / provider.Close / cancel runs to completion, and closer parked inside each disposable Close while the op runs (~700 overlap executions in quick).",
     "Wall clock only steers schedules and bounds waits (expiry = inconclusive unless goroutines are stuck in godi in two samples).",
     "DESIGN.md §3 C13")
-chk("C14", "leak", FE,
+chk("C14", "leak", EX,
     "weak pointers + goroutine accounting + context Done monitors over N create-use-close cycles; fault enumeration over initializer positions",
     "Held on ~160 cycle cases (hosts x caller contexts x tree shapes x close modes, N=200 then 400 / 5 000 then 10 000) and ~440 fault cases (Build / provider.CreateScope / child / grandchild x initializer orders x every position x 4 failure kinds).",
     "Goroutine poll bounded at 10 s; leftovers without godi frames are inconclusive. Heap deltas are information only.",
